@@ -226,15 +226,20 @@ fn gen(seed: u64, n: usize, tier: &str) -> Vec<Value> {
             }
             rs.sort();
             rs.dedup_by(|a, b| a.0 == b.0 && a.1 == b.1);
+            // a third of the sets are gated, by one to three conditions (all must hold)
             let params: Vec<Value> = if r.chance(1, 3) {
-                let lt = r.range(0, 2);
-                let ct = r.range(0, 4);
-                let val = match lt {
-                    0 => ncars * car_mass + r.range(-1, 1) * car_mass,
-                    1 => car_mass + r.range(-1, 1) * 1000,
-                    _ => (ncars * axles + r.range(-1, 1)).max(0),
-                };
-                vec![json!([lt, ct, val.max(0)])]
+                (0..*r.pick(&[1usize, 1, 2, 3]))
+                    .map(|_| {
+                        let lt = r.range(0, 2);
+                        let ct = r.range(0, 4);
+                        let val = match lt {
+                            0 => ncars * car_mass + r.range(-1, 1) * car_mass,
+                            1 => car_mass + r.range(-1, 1) * 1000,
+                            _ => (ncars * axles + r.range(-1, 1)).max(0),
+                        };
+                        json!([lt, ct, val.max(0)])
+                    })
+                    .collect()
             } else {
                 vec![]
             };
